@@ -71,6 +71,17 @@ def one_program(draw, big):
 def case(draw, tier):
     big = tier == "thorough"
     progs = [draw(one_program(big)) for _ in range(draw(st.integers(2, 4)))]
+    if draw(st.integers(0, 4)) == 0:
+        # a tick-count window and a duration window with coinciding numbers in one process (process-wide schema caches
+        # must keep them apart whichever is built first)
+        p_, m_ = draw(st.sampled_from([2, 3, 4])), draw(st.sampled_from([0, 1, 2]))
+        times = sorted(draw(st.sets(st.integers(0, 11), min_size=3, max_size=8)))
+        pair = [{"start": 0, "end": 13, "stmts": [
+            {"id": "w", "op": "src", "schema": sch, "script": [[t, [{"k": "push", "v": 10 + t}]] for t in times]},
+            {"id": "rw", "op": "node", "ins": ["w"], "deep": True, "valid": []}]} for sch in (f"TSW[int,{p_},{m_}]", f"TSWD[int,{p_},{m_}]")]
+        if draw(st.booleans()):
+            pair.reverse()
+        progs = pair + progs[:2]
     plan = []
     for w in range(draw(st.integers(2, 4))):
         n = draw(st.integers(1, 8 if big else 6))
